@@ -662,6 +662,30 @@ class Impl:
             out.append((g, repr(r)))
         return out
 
+    @staticmethod
+    def _reprs(t):
+        return ",".join(hx(x) for x in t)
+
+    def c_sim_regtable(self, a):
+        return ";".join(self._reprs(t) for t in self.sim.get_register_entries())
+
+    def c_sim_memtable(self, a):
+        try:
+            return ";".join(f"{ad},{hx(h)},{self._reprs(v)}" for (ad, h), v in self.sim.get_data_memory_entries())
+        except Exception as e:
+            return err_str(e)
+
+    def c_toy_regtable(self, a):
+        r = self.toy.get_register_representations()
+        f = lambda t: "-" if t == ("", "", "", "") else self._reprs(t)
+        return f"accu={f(r['accu'])}|pc={f(r['pc'])}|ir={f(r['ir'])}"
+
+    def c_toy_memtable(self, a):
+        try:
+            return ";".join(f"{ad},{hx(h)},{self._reprs(v)},{hx(ir)},{hx(mark)}" for (ad, h), v, ir, mark in self.toy.get_memory_table_entries())
+        except Exception as e:
+            return err_str(e)
+
     def c_sim_insp(self, a):
         try:
             self.sim_views(int(a[0]))
